@@ -335,6 +335,13 @@ func (f *Func) reachTarget(
 ) (map[interface{}]reflect.Value, error) {
 	log.Trace("reachTarget", "target", target)
 
+	// Remember that we're in the middle of satisfying this target so that
+	// converters that (transitively) need each other are detected below
+	// instead of recursing until the stack is exhausted.
+	targetID := graph.VertexID(target)
+	state.InProgress[targetID] = struct{}{}
+	defer delete(state.InProgress, targetID)
+
 	// argMap will store all the values that this target depends on.
 	argMap := map[interface{}]reflect.Value{}
 
@@ -530,6 +537,21 @@ func (f *Func) reachTarget(
 				state.TypedValue[v.Type] = v.Value
 
 			case *funcVertex:
+				// If this function is already waiting for its own inputs
+				// further up the stack, then the path to this requirement
+				// depends on itself and the requirement is unsatisfiable.
+				if _, ok := state.InProgress[graph.VertexID(v)]; ok {
+					var args []*Value
+					if valueable, ok := path[len(path)-1].(valueConverter); ok {
+						args = append(args, valueable.value())
+					}
+
+					return nil, &ErrArgumentUnsatisfied{
+						Func: f,
+						Args: args,
+					}
+				}
+
 				// Reach our arguments if they aren't already.
 				funcArgMap, err := f.reachTarget(
 					log, //log.Named(graph.VertexName(v)),
@@ -638,6 +660,10 @@ type callState struct {
 
 	// TODO
 	InputSet map[interface{}]graph.Vertex
+
+	// InProgress is the set of targets (by vertex ID) whose inputs are
+	// currently being satisfied further up the reachTarget recursion.
+	InProgress map[interface{}]struct{}
 }
 
 func newCallState() *callState {
@@ -645,5 +671,6 @@ func newCallState() *callState {
 		NamedValue: map[string]reflect.Value{},
 		TypedValue: map[reflect.Type]reflect.Value{},
 		InputSet:   map[interface{}]graph.Vertex{},
+		InProgress: map[interface{}]struct{}{},
 	}
 }
